@@ -1082,3 +1082,48 @@ class owner:
 
     def __exit__(self, *a: Any) -> None:
         _tls.owner = self.prev
+
+
+class SoloWorld:
+    """Pretend to be rank `rank` of a world of `size` without other ranks.
+
+    For code that only queries rank / world size and creates groups (work
+    assignment, constructors).  new_group returns a handle immediately and
+    records the call; any collective raises.
+    """
+
+    def __init__(self, rank: int, size: int) -> None:
+        self.rank = rank
+        self.size = size
+        self.ng_calls: list[tuple[int, ...]] = []
+
+    def __enter__(self) -> 'SoloWorld':
+        global _WORLD
+        assert _WORLD is None
+        _install_patches()
+        self._w = World(self.size, record=False)
+        w = self._w
+        solo = self
+
+        def new_group(ranks: Any = None, **kw: Any) -> Any:
+            key = tuple(sorted(range(solo.size) if ranks is None else ranks))
+            solo.ng_calls.append(key)
+            gid = len(solo.ng_calls)
+            w.groups[gid] = key
+            if solo.rank not in key:
+                return NON_MEMBER
+            return SimGroup(gid, key, solo.rank)
+
+        def collective(*a: Any, **kw: Any) -> Any:
+            raise RuntimeError('SoloWorld: collective attempted')
+
+        w.new_group = new_group  # type: ignore
+        w.collective = collective  # type: ignore
+        _WORLD = w
+        _tls.rank = self.rank
+        return self
+
+    def __exit__(self, *a: Any) -> None:
+        global _WORLD
+        _WORLD = None
+        _tls.rank = None
